@@ -160,6 +160,20 @@ bool face_bad(draco::DecoderBuffer *b, draco::Mesh *m, uint32_t num_points) {
   return true;
 }
 
+// the bound `num_points - 1` wraps for num_points == 0: the comparison rejects nothing
+bool face_wrap_bad(draco::DecoderBuffer *b, draco::Mesh *m, uint32_t num_points) {
+  const uint8_t max_index = static_cast<uint8_t>(num_points - 1);
+  draco::Mesh::Face face;
+  for (int c = 0; c < 3; ++c) {
+    uint8_t v;
+    if (!b->Decode(&v)) return false;
+    if (v > max_index) return false;
+    face[c] = v;
+  }
+  m->AddFace(face);
+  return true;
+}
+
 bool face_ok(draco::DecoderBuffer *b, draco::Mesh *m, uint32_t num_points) {
   draco::Mesh::Face face;
   for (int c = 0; c < 3; ++c) {
